@@ -62,7 +62,7 @@ func main() {
 		for i, t := range ts {
 			solo[i] = t.Run()
 		}
-		got := conc.RunTogether(ts)
+		got, _ := conc.RunTogether(ts)
 		groups++
 		for i := range ts {
 			if got[i] != solo[i] {
